@@ -28,7 +28,7 @@ def projection(obs, A, norm):
 def run(tier, seed):
     return st.run_structural(
         "C11", tier, seed, "ZeepVerif.Props.C11", "ZeepVerif/Audit/C11.lean",
-        [("gencyc", 300, 8000), ("gen", 350, 4000), ("gentopo", 100, 2000)], oracle, projection, CHECKER,
+        [("gencyc", 300, 8000), ("gen", 350, 4000), ("gentopo", 100, 2000)], oracle, projection, CHECKER, extra_props=[('ZeepVerif.Props.C11Read', 'ZeepVerif/Audit/C11Read.lean')], extra=st.refinement_coverage,
         note_assumptions=["the traversal theorems are about `visit`, the import skeleton of reader.rs (mark, then follow imports); its agreement with the "
                           "full model and the implementation is what the correspondence part checks on every graph",
                           "in the cyclic profile lookup references (ref=, base=) stay inside their file: a reference into a file that is still being read cannot be resolved by zeep's per-file documents (DESIGN.md section 6)"],
